@@ -249,6 +249,9 @@ def handleHTTP (i o : List String) : String :=
     if o.head? == some "HANG" then s!"VIOL the call never ends ({o.getD 1 ""} handler={(kv? "hs" o).getD "?"})" else
     if o.head? == some "PANIC" then "VIOL panic" else
     if (kv? "hs" o).getD "returned" != "returned" then "VIOL handler=stuck: ServeHTTP did not return after the response ended" else
+    -- the status first: a request that was not answered by the gRPC-Web bridge at all has no outcome to parse
+    if (match (kv? "st" o).bind String.toNat? with | some st => st != httpStatus | none => false) then
+      s!"VIOL http status {(kv? "st" o).getD "?"}" else
     match (kv? "st" o).bind String.toNat?, (kv? "rv" o).bind (parseList parseORes), (kv? "tg" o).bind (parseList parseCB),
           kv? "te" o, (kv? "sd" o).bind (parseList parseCB), (kv? "oc" o).bind parseCodeMsg,
           (kv? "body" o).bind parseCB, kv? "gd" o, (kv? "tr" o).bind (parseList parseKV) with
@@ -531,6 +534,20 @@ def handle : Handler
     match kv? "st" o, kv? "first" o with
     | some "200", some f => s!"OK b=obs-first-message-visible-{f}"
     | _, _ => "BAD c08 obs"
+  | "nr" :: tr :: _, o =>
+    -- a client that stops reading and never closes; the grpc-timeout ends Forward with a Send still blocked
+    if o.head? == some "PANIC" then "VIOL panic" else
+    match kv? "hs" o, kv? "gr" o, kv? "tcp" o, kv? "blk" o, kv? "fwd" o, kv? "gone" o, (kv? "oc" o).bind parseCodeMsg with
+    | some hs, some gr, some tcp, some blk, some fwd, some gone, some (oc, _) =>
+      if blk != "yes" || fwd != "returned" || oc != 4 then "DIFF model=non-reading-client scenario not established"
+      else if gone != "returned" then "VIOL handler-stuck although the client has gone away"
+      else if tr == "h1" then
+        -- gRPC-Web over HTTP: bounded only by net/http (WriteTimeout / client going away) — documented assumption
+        s!"OK nt b=nr-h1-{hs}-until-client-gone"
+      else if hs != "returned" || tcp != "closed" || gr != "0" then
+        s!"VIOL handler-stuck-on-non-reading-client (handler={hs} goroutines={gr} tcp={tcp})"
+      else s!"OK nt b=nr-{tr}-bounded"
+    | _, _, _, _, _, _, _ => "BAD c08 nr"
   | "http" :: i, o => handleHTTP i o
   | "ws" :: i, o => handleWS i o
   | _, _ => "BAD c08 line"
